@@ -66,7 +66,6 @@ func importLocalFile(
 	fromRoot bool,
 	importPath, sourceDir string,
 ) (rel.Expr, error) {
-	importPath = strings.Trim(importPath, " \t\n")
 	if fromRoot {
 		rootPath, err := findRootFromModule(ctx, sourceDir)
 		if err != nil {
@@ -275,12 +274,20 @@ func fileValue(ctx context.Context, decoder rel.Tuple, filename string) (rel.Exp
 	return bytesValue(ctx, filename, bytes)
 }
 
+type importChainKey struct{}
+
 func bytesValue(ctx context.Context, filename string, data []byte) (rel.Expr, error) {
-	compile := func() (rel.Expr, error) {
+	if filename == NoPath {
 		return Compile(ctx, filename, string(data))
 	}
-	if filename != NoPath {
-		return importcache.GetOrAddFromCache(ctx, filename, compile)
+	chain, _ := ctx.Value(importChainKey{}).([]string)
+	for _, f := range chain {
+		if f == filename {
+			return nil, fmt.Errorf("import cycle: %s", strings.Join(append(chain, filename), " -> "))
+		}
 	}
-	return compile()
+	ctx = context.WithValue(ctx, importChainKey{}, append(chain[:len(chain):len(chain)], filename))
+	return importcache.GetOrAddFromCache(ctx, filename, func() (rel.Expr, error) {
+		return Compile(ctx, filename, string(data))
+	})
 }
